@@ -140,6 +140,9 @@ def compare_built(el, tree, lang):
     return None
 
 
-def normalized_ok(v):
-    """an identifier free of logic punctuation: starts with `_`, none of . , ( ) ! -"""
+def normalized_ok(v, original=None):
+    """an identifier free of logic punctuation: starts with `_`, none of . , ( ) ! - ; a token that
+    is the conjunction sign `&` alone must have been renamed (inside a word `&` is kept by design)"""
+    if original == '&' and '&' in v:
+        return False
     return v.startswith('_') and not any(ch in v for ch in '.,()!-')
